@@ -265,42 +265,61 @@ def _runs_from_model(model, name, kind, cap=6):
     return runs, cached
 
 
+def _roles(sigcase):
+    """names of the vault / item / position parameters of a vault-style signature"""
+    vault = next((n for n, t in sigcase.items() if type(t).__name__ == "Model" and "kinds" in getattr(t, "kw", {})), None)
+    item = next((n for n in ("item", "cell", "row", "column") if n in sigcase and type(sigcase[n]).__name__ == "Model"), None)
+    pos = next((n for n in ("position", "x", "y") if n in sigcase), None)
+    return vault, item, pos
+
+
 def build_vault_args(sigcase, spec):
     """spec: dict with runs per kind, caches, position, item (pl, rep), clone -> argument dict of real objects"""
     import odfdo.row as R
     import odfdo.table as T
     out = {}
-    vs = sigcase["vault"]
+    vname, iname, pname = _roles(sigcase)
+    vs = sigcase[vname]
     kinds = vs.kw["kinds"]
     if kinds == ("cells",):
-        out["vault"] = build_row(spec["cells"], spec.get("cached_cells", ()))
+        out[vname] = build_row(spec["cells"], spec.get("cached_cells", ()))
     else:
-        out["vault"] = build_table(spec["rows"], spec["cols"], spec.get("cached_rows", ()), spec.get("cached_cols", ()))
+        out[vname] = build_table(spec["rows"], spec["cols"], spec.get("cached_rows", ()), spec.get("cached_cols", ()))
     for name, t in sigcase.items():
-        if name == "vault":
+        if name == vname:
             continue
-        if name == "item":
-            mname = sigcase["vault_map_name"].value
-            kind = {v: k for k, v in MAP_OF_KIND.items()}[mname]
-            out["item"] = ITEM_BUILDERS[kind](*spec["item"])
+        if name == iname:
+            if "vault_map_name" in sigcase:
+                mname = sigcase["vault_map_name"].value
+                kind = {v: k for k, v in MAP_OF_KIND.items()}[mname]
+            else:
+                kind = {"cell": "cells", "row": "rows", "column": "cols", "item": kinds[0]}[iname]
+            out[name] = ITEM_BUILDERS[kind](*spec["item"])
         elif hasattr(t, "value"):
             out[name] = t.value
+        elif name == pname:
+            out[name] = spec["position"]
         elif name in spec:
             out[name] = spec[name]
+        elif type(t).__name__ == "_Bool":
+            out[name] = spec.get("clone", True)
+        elif type(t).__name__ == "_Int":
+            out[name] = spec.get("position", 0)
     return out
 
 
 def concretize_vault(con, sigcase, model):
     import z3
-    vs = sigcase["vault"]
+    vname, iname, pname = _roles(sigcase)
+    vs = sigcase[vname]
     kinds = vs.kw["kinds"]
     spec = {}
     for kind in kinds:
-        runs, cached = _runs_from_model(model, "vault", kind)
+        runs, cached = _runs_from_model(model, vname, kind)
         spec[kind] = runs
         spec["cached_" + kind] = cached
-    if "item" in sigcase:
-        node = z3.Int("item.node")
+    if iname is not None:
+        node = z3.Int(iname + ".node")
         rep = z3.Array("xml.rep", z3.IntSort(), z3.IntSort())
         pl = z3.Array("xml.pl", z3.IntSort(), z3.IntSort())
         spec["item"] = (_mv(model, z3.Select(pl, node)), max(1, min(_mv(model, z3.Select(rep, node)), 50)))
@@ -308,6 +327,8 @@ def concretize_vault(con, sigcase, model):
         tn = type(t).__name__
         if tn == "_Int":
             spec[name] = _mv(model, z3.Int(name))
+            if name == pname:
+                spec["position"] = spec[name]
         elif tn == "_Bool":
             spec[name] = bool(_mv(model, z3.Bool(name), False))
     return build_vault_args(sigcase, spec)
@@ -318,7 +339,8 @@ def gen_vault(con, sigcase, count, seed):
     import itertools
     import random
     rnd = random.Random(seed)
-    vs = sigcase["vault"]
+    vname, iname, pname = _roles(sigcase)
+    vs = sigcase[vname]
     kinds = vs.kw["kinds"]
     mname = sigcase["vault_map_name"].value if "vault_map_name" in sigcase else MAP_OF_KIND[kinds[0]]
     kind = {v: k for k, v in MAP_OF_KIND.items()}[mname]
